@@ -1,26 +1,1372 @@
-//! C25: not implemented yet.
+//! C25: dirty-file flags are never lost between processes.
+//!
+//! Process stepper (DESIGN 3.6). Real actor processes (`swverif c25-actor <home> <lockname>`, own
+//! pids, shared redirected HOME) run the real `forc_util::fs_locking` operations; the verif hook
+//! callback stops them at every hook point until the coordinator answers `go`, so the
+//! coordinator owns a total order of file-system steps across processes. The coordinator
+//! enumerates interleavings (DFS over "which actor steps next"), injects crashes (SIGKILL +
+//! reap) and samples longer random scripts. The oracle looks only at call/return/kill events;
+//! an independent file-system model of the trace is used (a) to cross-check the contents the
+//! real code reports having read and (b) to name the cause of a lost flag (signature).
 use crate::common::*;
 use crate::{Plan, Prop};
+use rand::Rng;
+use serde::{Deserialize, Serialize};
+use serde_json::{json, Value};
+use std::collections::BTreeMap;
+use std::io::{BufRead, Write};
+use std::path::{Path, PathBuf};
+use std::sync::mpsc::{Receiver, RecvTimeoutError};
+use std::time::Duration;
+
+#[path = "c25_model.rs"]
+mod model;
+use model::*;
 
 pub static META: PropertyMeta = PropertyMeta {
     id: "C25",
-    level: "exploration",
-    rule: "not implemented",
-    assumptions: &[],
-    floor_evaluations: 1,
-    floor_nontrivial: 2,
-    required_counters: &[],
+    level: "fault_enumeration",
+    rule: "one evaluation = one controlled execution (one interleaving / crash point / sampled schedule) of 2-3 real processes over one flag file, ending with an is_dirty probe from every live process; non-trivial = the run contains at least one is_dirty observation classified must-true or must-false (not only unconstrained ones); distinct = hash of (setup, scripts, kill victim, full schedule)",
+    assumptions: &[
+        "hook points in fs_locking.rs sit between the file-system operations (cross-checked: every content the real code reports having read equals the content predicted by the harness's own file-system model of the coordinator's total order)",
+        "steps that touch no shared state (points followed by no file-system operation; `ps` when no process is killed in the run; fsync) are not scheduling points: they commute with every other step",
+        "the call of an operation is placed immediately before its first file-system step, its return immediately after its last one",
+        "pid reuse is not forced (a dead pid that is alive again at the end of a run makes the run inconclusive)",
+        "one flag file per HOME; HOME redirected to /verif/work/C25/shard<N>/home",
+        "`ps` (spawned by is_pid_active) is the system's procps in the crash-point runs and in replays; in the enumerated and sampled runs a stand-in with procps' output format that answers from /proc/<pid> (checked against the system's ps on a live, a dead and a zombie pid at every shard start), because procps costs 40-400 ms per call on a loaded machine; C25_REAL_PS=1 uses the system's ps everywhere",
+        "the oracle's intervals are conservative: a call is recorded before the command is sent, a return after the actor reported it, a kill after the victim was reaped",
+    ],
+    floor_evaluations: 150,
+    floor_nontrivial: 60,
+    required_counters: &[
+        "obs_must_true",
+        "obs_must_false",
+        "obs_unconstrained",
+        "crash_points_enumerated",
+        "dfs_units_completed",
+        "crash_configs_completed",
+        "sampled_runs",
+        "model_reads_checked",
+    ],
 };
 
 pub static PROP: Prop = Prop {
     meta: &META,
-    plan: |_t| Plan { nshards: 1, budget_s: 1.0, mem_gib: 0 },
-    shard: |_ctx| {
-        let mut r = ShardResult::default();
-        r.harness_fault = Some("not implemented".into());
-        r
-    },
-    replay: crate::no_replay,
-    extra: crate::no_extra,
-    subcommand: crate::no_subcommand,
+    plan: |t| Plan { nshards: 16, budget_s: t.pick(70.0, 1000.0), mem_gib: 0 },
+    shard,
+    replay,
+    extra,
+    subcommand,
 };
+
+const LOCKNAME: &str = "flagged_file.sw";
+const WATCHDOG: Duration = Duration::from_secs(20);
+
+// ------------------------------------------------------------------------------------------
+// Actor process
+
+fn subcommand(args: &[String]) -> Option<i32> {
+    if args.first().map(|s| s.as_str()) != Some("c25-actor") {
+        return None;
+    }
+    if args.len() < 3 {
+        eprintln!("usage: c25-actor <home> <lockname>");
+        return Some(2);
+    }
+    Some(actor_main(&args[1], &args[2]))
+}
+
+fn actor_read_line() -> Option<String> {
+    let mut s = String::new();
+    match std::io::stdin().lock().read_line(&mut s) {
+        Ok(0) | Err(_) => None,
+        Ok(_) => Some(s.trim().to_string()),
+    }
+}
+
+fn actor_say(s: &str) {
+    let out = std::io::stdout();
+    let mut o = out.lock();
+    let _ = writeln!(o, "{s}");
+    let _ = o.flush();
+}
+
+fn actor_main(home: &str, lockname: &str) -> i32 {
+    use forc_util::fs_locking::{is_file_dirty, PidFileLocking};
+    unsafe {
+        libc::prctl(libc::PR_SET_PDEATHSIG, libc::SIGKILL);
+    }
+    std::env::set_var("HOME", home);
+    // sanity: the lock directory must resolve below the redirected home
+    if !forc_util::user_forc_directory().starts_with(home) {
+        eprintln!("c25-actor: user_forc_directory() = {:?} is not below {home}", forc_util::user_forc_directory());
+        return 3;
+    }
+    // constructed before the hook is installed (runs an uncontrolled cleanup on the empty directory)
+    let mut obj = PidFileLocking::lsp(lockname);
+    sway_types::verif_hooks::install(Some(std::sync::Arc::new(|_kind, name, detail| {
+        actor_say(&format!("POINT {name} {}", hex::encode(detail.as_bytes())));
+        match actor_read_line() {
+            Some(l) if l == "go" => sway_types::verif_hooks::Action::Continue,
+            _ => std::process::exit(0),
+        }
+    })));
+    actor_say(&format!("READY {}", std::process::id()));
+    loop {
+        let Some(cmd) = actor_read_line() else { return 0 };
+        let r = std::panic::catch_unwind(std::panic::AssertUnwindSafe(|| match cmd.as_str() {
+            "lock" => match obj.lock() {
+                Ok(()) => "ok".to_string(),
+                Err(e) => format!("err:{}", hex::encode(e.to_string())),
+            },
+            "release" => match obj.release() {
+                Ok(()) => "ok".to_string(),
+                Err(e) => format!("err:{}", hex::encode(e.to_string())),
+            },
+            "is_dirty" => format!("{}", is_file_dirty(lockname)),
+            "cleanup" => match PidFileLocking::cleanup_stale_files() {
+                Ok(v) => format!("ok:{}", v.len()),
+                Err(e) => format!("err:{}", hex::encode(e.to_string())),
+            },
+            "new" => {
+                obj = PidFileLocking::lsp(lockname);
+                "ok".to_string()
+            }
+            "exit" => std::process::exit(0),
+            other => format!("unknown:{}", hex::encode(other)),
+        }));
+        match r {
+            Ok(s) => actor_say(&format!("DONE {cmd} {s}")),
+            Err(_) => actor_say(&format!("DONE {cmd} panic")),
+        }
+    }
+}
+
+// ------------------------------------------------------------------------------------------
+// Coordinator side: actor handles
+
+struct ActorProc {
+    child: std::process::Child,
+    stdin: std::process::ChildStdin,
+    rx: Receiver<String>,
+    pid: u32,
+}
+
+enum Line {
+    Point(String, String),
+    Done(String, String),
+}
+
+impl ActorProc {
+    fn spawn(home: &Path, ps_dir: Option<&Path>) -> Result<ActorProc, String> {
+        Self::spawn_traced(home, ps_dir, None)
+    }
+
+    /// `strace_log`: run the actor under `strace -f` writing to that file.
+    fn spawn_traced(home: &Path, ps_dir: Option<&Path>, strace_log: Option<&Path>) -> Result<ActorProc, String> {
+        let exe = std::env::current_exe().map_err(|e| e.to_string())?;
+        let mut cmd = match strace_log {
+            None => std::process::Command::new(exe),
+            Some(log) => {
+                let mut c = std::process::Command::new("strace");
+                c.arg("-f").arg("-qq").arg("-s").arg("80").arg("-e").arg("trace=openat,open,unlink,unlinkat,rename,renameat,renameat2,write,getdents64").arg("-o").arg(log).arg(exe);
+                c
+            }
+        };
+        if let Some(d) = ps_dir {
+            cmd.env("PATH", format!("{}:{}", d.display(), std::env::var("PATH").unwrap_or_else(|_| "/usr/bin:/bin".into())));
+        }
+        let mut child = cmd
+            .arg("c25-actor")
+            .arg(home)
+            .arg(LOCKNAME)
+            .env("HOME", home)
+            .stdin(std::process::Stdio::piped())
+            .stdout(std::process::Stdio::piped())
+            .stderr(std::process::Stdio::inherit())
+            .spawn()
+            .map_err(|e| format!("spawn actor: {e}"))?;
+        let stdin = child.stdin.take().unwrap();
+        let stdout = child.stdout.take().unwrap();
+        let (tx, rx) = std::sync::mpsc::channel();
+        std::thread::spawn(move || {
+            let rd = std::io::BufReader::new(stdout);
+            for l in rd.lines() {
+                match l {
+                    Ok(l) => {
+                        if tx.send(l).is_err() {
+                            break;
+                        }
+                    }
+                    Err(_) => break,
+                }
+            }
+        });
+        let mut a = ActorProc { child, stdin, rx, pid: 0 };
+        let l = a.raw_line()?;
+        let pid = l.strip_prefix("READY ").and_then(|p| p.parse::<u32>().ok()).ok_or_else(|| format!("actor said {l:?} instead of READY"))?;
+        if pid != a.child.id() && strace_log.is_none() {
+            return Err("actor pid mismatch".into());
+        }
+        a.pid = pid;
+        Ok(a)
+    }
+    fn raw_line(&mut self) -> Result<String, String> {
+        match self.rx.recv_timeout(WATCHDOG) {
+            Ok(l) => Ok(l),
+            Err(RecvTimeoutError::Timeout) => Err(format!("watchdog: actor {} silent for {} s", self.pid, WATCHDOG.as_secs())),
+            Err(RecvTimeoutError::Disconnected) => Err(format!("actor {} closed its pipe (crashed helper)", self.pid)),
+        }
+    }
+    fn line(&mut self) -> Result<Line, String> {
+        let l = self.raw_line()?;
+        let mut it = l.splitn(3, ' ');
+        let (k, a, b) = (it.next().unwrap_or(""), it.next().unwrap_or(""), it.next().unwrap_or(""));
+        match k {
+            "POINT" => {
+                let d = hex::decode(b).map_err(|_| format!("bad detail in {l:?}"))?;
+                Ok(Line::Point(a.to_string(), String::from_utf8_lossy(&d).into_owned()))
+            }
+            "DONE" => {
+                let r = if let Some(h) = b.strip_prefix("err:") {
+                    format!("err:{}", String::from_utf8_lossy(&hex::decode(h).unwrap_or_default()))
+                } else {
+                    b.to_string()
+                };
+                Ok(Line::Done(a.to_string(), r))
+            }
+            _ => Err(format!("unexpected actor line {l:?}")),
+        }
+    }
+    fn send(&mut self, s: &str) -> Result<(), String> {
+        writeln!(self.stdin, "{s}").and_then(|_| self.stdin.flush()).map_err(|e| format!("write to actor {}: {e}", self.pid))
+    }
+    /// SIGKILL and reap: afterwards the pid is really dead.
+    fn kill(mut self) {
+        unsafe {
+            libc::kill(self.pid as i32, libc::SIGKILL);
+        }
+        let _ = self.child.wait();
+    }
+}
+
+/// A pid that was alive a moment ago and is dead (and reaped) now.
+fn fresh_dead_pid() -> Result<u32, String> {
+    unsafe {
+        let pid = libc::fork();
+        if pid < 0 {
+            return Err("fork failed".into());
+        }
+        if pid == 0 {
+            libc::_exit(0);
+        }
+        let mut st = 0;
+        libc::waitpid(pid, &mut st, 0);
+        Ok(pid as u32)
+    }
+}
+
+fn pid_alive(pid: u32) -> bool {
+    unsafe { libc::kill(pid as i32, 0) == 0 || *libc::__errno_location() != libc::ESRCH }
+}
+
+// ------------------------------------------------------------------------------------------
+// Run specification
+
+#[derive(Clone, Debug, Serialize, Deserialize, PartialEq, Eq)]
+pub struct RunSpec {
+    pub setup: Setup,
+    /// one script per actor (op names)
+    pub scripts: Vec<Vec<Op>>,
+    /// actor that the pseudo-actor K (id = scripts.len()) kills when scheduled
+    pub kill: Option<usize>,
+    /// actors for which EVERY hook point is a scheduling point (crash-point enumeration)
+    pub all_points: Vec<usize>,
+    /// scheduled choices (actor ids; scripts.len() = kill); after the prefix: lowest enabled id
+    pub schedule: Vec<usize>,
+}
+
+enum Policy<'a> {
+    Lowest,
+    Random(&'a mut rand::rngs::StdRng),
+}
+
+struct Coordinator {
+    home: PathBuf,
+    lock_dir: PathBuf,
+    lock_path: PathBuf,
+    pool: Vec<Option<ActorProc>>,
+    /// how `lock()` publishes the pid (detected on the real code at start-up)
+    variant: LockVariant,
+    /// directory put in front of the actors' PATH holding the `ps` stand-in (None = the system's ps)
+    ps_dir: Option<PathBuf>,
+}
+
+/// `ps -p <pid>` stand-in with procps' output format: header, plus one line iff /proc/<pid>
+/// exists (which, like ps, includes zombies). The system's `ps` reads all of /proc and costs
+/// 40-400 ms per call on a loaded machine; `is_pid_active` itself (spawn "ps", look for
+/// "<pid> " in its stdout) runs unchanged.
+const PS_STANDIN: &str = r#"#!/bin/sh
+echo "    PID TTY          TIME CMD"
+if [ "$1" = "-p" ] && [ -r "/proc/$2/stat" ]; then
+  read -r _ comm _ < "/proc/$2/stat"
+  printf '%7s ?        00:00:00 %s\n' "$2" "$comm"
+fi
+"#;
+
+fn real_ps_forced() -> bool {
+    std::env::var("C25_REAL_PS").map(|v| v == "1").unwrap_or(false)
+}
+
+/// Does `ps -p pid` (found through `path`) print something containing "<pid> "? (the predicate of is_pid_active)
+fn ps_says_active(path_env: &str, pid: u32) -> Option<bool> {
+    let out = std::process::Command::new("ps").env("PATH", path_env).arg("-p").arg(pid.to_string()).output().ok()?;
+    Some(String::from_utf8_lossy(&out.stdout).contains(&format!("{pid} ")))
+}
+
+struct Executed {
+    rec: RunRecord,
+    choices: Vec<usize>,
+    enabled: Vec<Vec<usize>>,
+}
+
+enum ExecErr {
+    /// the schedule prefix asked for an actor that is not enabled (empty work unit)
+    Infeasible,
+    Inconclusive(String),
+}
+
+impl Coordinator {
+    fn new(home: PathBuf, real_ps: bool) -> Result<Coordinator, String> {
+        std::fs::create_dir_all(&home).map_err(|e| e.to_string())?;
+        let ps_dir = if real_ps || real_ps_forced() {
+            None
+        } else {
+            use std::os::unix::fs::PermissionsExt;
+            let d = home.parent().unwrap_or(&home).join("bin");
+            std::fs::create_dir_all(&d).map_err(|e| e.to_string())?;
+            let f = d.join("ps");
+            std::fs::write(&f, PS_STANDIN).map_err(|e| e.to_string())?;
+            std::fs::set_permissions(&f, std::fs::Permissions::from_mode(0o755)).map_err(|e| e.to_string())?;
+            // the stand-in must agree with the system's ps on a live, a dead and a zombie pid
+            let sys_path = std::env::var("PATH").unwrap_or_else(|_| "/usr/bin:/bin".into());
+            let my_path = format!("{}:{sys_path}", d.display());
+            let dead = fresh_dead_pid()?;
+            let zombie = unsafe {
+                let z = libc::fork();
+                if z == 0 {
+                    libc::_exit(0);
+                }
+                z
+            };
+            std::thread::sleep(Duration::from_millis(20));
+            let mut agree = true;
+            for pid in [std::process::id(), dead, zombie as u32] {
+                let a = ps_says_active(&sys_path, pid);
+                let b = ps_says_active(&my_path, pid);
+                if a.is_none() || a != b {
+                    agree = false;
+                }
+            }
+            if zombie > 0 {
+                let mut st = 0;
+                unsafe { libc::waitpid(zombie, &mut st, 0) };
+            }
+            if !agree {
+                return Err("the ps stand-in disagrees with the system's ps".into());
+            }
+            Some(d)
+        };
+        let lock_dir = home.join(".forc").join(".lsp-locks");
+        std::fs::create_dir_all(&lock_dir).map_err(|e| e.to_string())?;
+        let mut c = Coordinator { home, lock_dir, lock_path: PathBuf::new(), pool: vec![], variant: LockVariant::CreateThenWrite, ps_dir };
+        c.detect()?;
+        Ok(c)
+    }
+
+    fn ls(&self) -> Vec<PathBuf> {
+        let mut v: Vec<PathBuf> = std::fs::read_dir(&self.lock_dir).map(|rd| rd.filter_map(|e| e.ok()).map(|e| e.path()).collect()).unwrap_or_default();
+        v.sort();
+        v
+    }
+
+    fn reset_fs(&self) {
+        for p in self.ls() {
+            let _ = std::fs::remove_file(p);
+        }
+    }
+
+    fn ensure(&mut self, n: usize) -> Result<(), String> {
+        while self.pool.len() < n {
+            self.pool.push(None);
+        }
+        for i in 0..n {
+            if self.pool[i].is_none() {
+                self.pool[i] = Some(ActorProc::spawn(&self.home, self.ps_dir.as_deref())?);
+            }
+        }
+        Ok(())
+    }
+
+    fn kill_all(&mut self) {
+        for a in self.pool.drain(..).flatten() {
+            a.kill();
+        }
+    }
+
+    /// Find the lock file's path and how lock() publishes the pid, by stepping one real lock().
+    fn detect(&mut self) -> Result<(), String> {
+        self.reset_fs();
+        self.ensure(1)?;
+        let a = self.pool[0].as_mut().unwrap();
+        a.send("lock")?;
+        let mut at_created: Option<Vec<PathBuf>> = None;
+        loop {
+            match a.line()? {
+                Line::Point(p, _) => {
+                    if p == "lock.created" {
+                        let mut v: Vec<PathBuf> = std::fs::read_dir(&self.lock_dir).map_err(|e| e.to_string())?.filter_map(|e| e.ok()).map(|e| e.path()).collect();
+                        v.sort();
+                        at_created = Some(v);
+                    }
+                    a.send("go")?;
+                }
+                Line::Done(_, r) => {
+                    if r != "ok" {
+                        return Err(format!("probe lock() failed: {r}"));
+                    }
+                    break;
+                }
+            }
+        }
+        let after = self.ls();
+        let locks: Vec<&PathBuf> = after.iter().filter(|p| p.extension().map(|e| e == "lock").unwrap_or(false)).collect();
+        if locks.len() != 1 || after.len() != 1 {
+            return Err(format!("probe lock() left {after:?}"));
+        }
+        self.lock_path = locks[0].clone();
+        let content = std::fs::read_to_string(&self.lock_path).unwrap_or_default();
+        if content.trim() != self.pool[0].as_ref().unwrap().pid.to_string() {
+            return Err(format!("probe lock() wrote {content:?}"));
+        }
+        let at_created = at_created.ok_or("probe lock() never reached lock.created")?;
+        self.variant = if at_created.contains(&self.lock_path) { LockVariant::CreateThenWrite } else { LockVariant::TempThenRename };
+        self.reset_fs();
+        Ok(())
+    }
+}
+
+// ------------------------------------------------------------------------------------------
+// Executing one run
+
+struct ARun {
+    next_op: usize,
+    blocked: Option<(String, String)>,
+    alive: bool,
+    cur_op: Option<Op>,
+}
+
+impl Coordinator {
+    fn actor(&mut self, i: usize) -> &mut ActorProc {
+        self.pool[i].as_mut().expect("live actor")
+    }
+
+    /// Run actor i's operation to completion, releasing every point at once.
+    fn run_auto(&mut self, i: usize, op: Op, probe: bool, events: &mut Vec<Ev>) -> Result<(), String> {
+        events.push(Ev::Call { a: i, op, probe });
+        self.actor(i).send(op.name())?;
+        loop {
+            match self.actor(i).line()? {
+                Line::Point(p, d) => {
+                    events.push(Ev::Exec { a: i, point: p, detail: d });
+                    self.actor(i).send("go")?;
+                }
+                Line::Done(o, r) => {
+                    if o != op.name() {
+                        return Err(format!("actor answered DONE {o} to {}", op.name()));
+                    }
+                    events.push(Ev::Ret { a: i, op, res: r, probe });
+                    return Ok(());
+                }
+            }
+        }
+    }
+
+    /// One step of actor i: (call +) release from its point, then run to the next scheduling
+    /// point or to the end of the operation.
+    fn step(&mut self, i: usize, spec: &RunSpec, st: &mut [ARun], events: &mut Vec<Ev>) -> Result<(), String> {
+        let all_points = spec.all_points.contains(&i);
+        let kills = spec.kill.is_some();
+        let variant = self.variant;
+        let mut pass_first;
+        if let Some((p, d)) = st[i].blocked.take() {
+            events.push(Ev::Exec { a: i, point: p, detail: d });
+            self.actor(i).send("go")?;
+            pass_first = false;
+        } else {
+            let op = spec.scripts[i][st[i].next_op];
+            st[i].next_op += 1;
+            st[i].cur_op = Some(op);
+            events.push(Ev::Call { a: i, op, probe: false });
+            self.actor(i).send(op.name())?;
+            // the call is placed immediately before the operation's first file-system step
+            pass_first = !all_points;
+        }
+        loop {
+            match self.actor(i).line()? {
+                Line::Point(p, d) => {
+                    let sig = all_points || significant(&p, &d, kills, variant);
+                    if sig && !pass_first {
+                        st[i].blocked = Some((p, d));
+                        return Ok(());
+                    }
+                    if sig {
+                        pass_first = false;
+                    }
+                    events.push(Ev::Exec { a: i, point: p, detail: d });
+                    self.actor(i).send("go")?;
+                }
+                Line::Done(o, r) => {
+                    let op = st[i].cur_op.take().ok_or("DONE without operation")?;
+                    if o != op.name() {
+                        return Err(format!("actor answered DONE {o} to {}", op.name()));
+                    }
+                    events.push(Ev::Ret { a: i, op, res: r, probe: false });
+                    return Ok(());
+                }
+            }
+        }
+    }
+
+    fn execute(&mut self, spec: &RunSpec, mut policy: Policy) -> Result<Executed, ExecErr> {
+        let r = self.execute_inner(spec, &mut policy);
+        if !matches!(r, Ok(_)) {
+            // unknown actor state: start over with fresh processes
+            self.kill_all();
+        }
+        r
+    }
+
+    fn execute_inner(&mut self, spec: &RunSpec, policy: &mut Policy) -> Result<Executed, ExecErr> {
+        let inc = ExecErr::Inconclusive;
+        let n = spec.scripts.len();
+        self.ensure(n).map_err(inc)?;
+        self.reset_fs();
+        let mut events = vec![];
+        let mut dead_pid = None;
+        match spec.setup {
+            Setup::NoFile => events.push(Ev::SetupFile { content: None }),
+            Setup::OwnedBy(i) => {
+                events.push(Ev::SetupFile { content: None });
+                self.run_auto(i, Op::Lock, false, &mut events).map_err(inc)?;
+            }
+            Setup::DeadPid => {
+                let d = fresh_dead_pid().map_err(inc)?;
+                dead_pid = Some(d);
+                std::fs::write(&self.lock_path, d.to_string()).map_err(|e| inc(e.to_string()))?;
+                events.push(Ev::SetupFile { content: Some(d.to_string()) });
+            }
+            Setup::Empty => {
+                std::fs::write(&self.lock_path, "").map_err(|e| inc(e.to_string()))?;
+                events.push(Ev::SetupFile { content: Some(String::new()) });
+            }
+            Setup::Garbage => {
+                std::fs::write(&self.lock_path, "not-a-pid").map_err(|e| inc(e.to_string()))?;
+                events.push(Ev::SetupFile { content: Some("not-a-pid".into()) });
+            }
+        }
+        let pids: Vec<u32> = (0..n).map(|i| self.actor(i).pid).collect();
+        let mut st: Vec<ARun> = (0..n).map(|_| ARun { next_op: 0, blocked: None, alive: true, cur_op: None }).collect();
+        let mut killed = false;
+        let mut choices = vec![];
+        let mut enabled_log = vec![];
+        loop {
+            let mut enabled: Vec<usize> = (0..n).filter(|&i| st[i].alive && (st[i].blocked.is_some() || st[i].next_op < spec.scripts[i].len())).collect();
+            if let Some(v) = spec.kill {
+                if !killed && st[v].alive {
+                    enabled.push(n);
+                }
+            }
+            if enabled.is_empty() {
+                break;
+            }
+            let k = choices.len();
+            let c = if k < spec.schedule.len() {
+                let c = spec.schedule[k];
+                if !enabled.contains(&c) {
+                    // let everybody finish so that the actors can be reused
+                    self.drain(&mut st, spec, &mut events).map_err(inc)?;
+                    return Err(ExecErr::Infeasible);
+                }
+                c
+            } else {
+                match policy {
+                    Policy::Lowest => enabled[0],
+                    Policy::Random(rng) => enabled[rng.gen_range(0..enabled.len())],
+                }
+            };
+            choices.push(c);
+            enabled_log.push(enabled);
+            if c == n {
+                let v = spec.kill.unwrap();
+                if let Some(a) = self.pool[v].take() {
+                    a.kill();
+                }
+                st[v].alive = false;
+                killed = true;
+                events.push(Ev::Kill { a: v });
+            } else {
+                self.step(c, spec, &mut st, &mut events).map_err(inc)?;
+            }
+        }
+        // final probes on the quiescent end state: one live process that does not hold the
+        // flag looks at it; if two or more processes hold it, each of them looks too (each
+        // must see the other's flag); if every live process holds it, all of them look
+        let fin = final_states(&pids, &events);
+        let live: Vec<usize> = (0..n).filter(|&i| st[i].alive).collect();
+        let holders: Vec<usize> = live.iter().copied().filter(|&i| fin[i] == St::Holding).collect();
+        let mut probers: Vec<usize> = live.iter().copied().filter(|&i| fin[i] != St::Holding).take(1).collect();
+        if holders.len() >= 2 || probers.is_empty() {
+            probers.extend(holders.iter().copied());
+        }
+        for i in probers {
+            self.run_auto(i, Op::IsDirty, true, &mut events).map_err(inc)?;
+        }
+        // pid reuse guard
+        if let Some(d) = dead_pid {
+            if pid_alive(d) {
+                return Err(inc(format!("pid {d} used as a dead pid is alive again (pid reuse)")));
+            }
+        }
+        if let Some(v) = spec.kill {
+            if killed && pid_alive(pids[v]) {
+                return Err(inc(format!("pid {} of the killed actor is alive again (pid reuse)", pids[v])));
+            }
+        }
+        Ok(Executed { rec: RunRecord { pids, dead_pid, events }, choices, enabled: enabled_log })
+    }
+
+    fn drain(&mut self, st: &mut [ARun], spec: &RunSpec, events: &mut Vec<Ev>) -> Result<(), String> {
+        for i in 0..st.len() {
+            while st[i].alive && st[i].blocked.is_some() {
+                // release and keep releasing until the operation ends
+                let (p, d) = st[i].blocked.take().unwrap();
+                events.push(Ev::Exec { a: i, point: p, detail: d });
+                self.actor(i).send("go")?;
+                loop {
+                    match self.actor(i).line()? {
+                        Line::Point(..) => self.actor(i).send("go")?,
+                        Line::Done(..) => break,
+                    }
+                }
+            }
+        }
+        let _ = spec;
+        Ok(())
+    }
+}
+
+impl Drop for Coordinator {
+    fn drop(&mut self) {
+        self.kill_all();
+    }
+}
+
+// ------------------------------------------------------------------------------------------
+// Judging a run
+
+fn spec_label(spec: &RunSpec) -> String {
+    let scripts: Vec<String> = spec.scripts.iter().map(|s| s.iter().map(|o| o.name()).collect::<Vec<_>>().join(",")).collect();
+    format!("{}:{}", spec.setup.name(), scripts.join("|"))
+}
+
+enum Judged {
+    Infeasible,
+    Inconclusive,
+    Done(Executed, Analysis),
+}
+
+/// Execute + analyse one run and book its observations.
+fn run_and_judge(co: &mut Coordinator, spec: &RunSpec, policy: Policy, kind: &str, res: &mut ShardResult) -> Judged {
+    let ex = match co.execute(spec, policy) {
+        Ok(ex) => ex,
+        Err(ExecErr::Infeasible) => return Judged::Infeasible,
+        Err(ExecErr::Inconclusive(why)) => {
+            res.inconclusive(format!("{} [{}]: {why}", spec_label(spec), kind));
+            res.count("runs_inconclusive");
+            return Judged::Inconclusive;
+        }
+    };
+    let an = analyze(&ex.rec, co.variant);
+    res.evaluations += 1;
+    res.count(&format!("runs_{kind}"));
+    res.count(if co.ps_dir.is_none() { "runs_with_system_ps" } else { "runs_with_ps_standin" });
+    if let Some(why) = &an.inconclusive {
+        res.inconclusive(format!("{}: {why}", spec_label(spec)));
+        return Judged::Done(ex, an);
+    }
+    if let Some(mm) = &an.model_mismatch {
+        // the real code did not read what the model of the total order predicts: the hook
+        // order does not explain the execution -> no verdict from this run
+        res.inconclusive(format!("{} schedule {:?}: file-system model mismatch: {mm}", spec_label(spec), ex.choices));
+        res.count("model_mismatch_runs");
+        return Judged::Done(ex, Analysis { violation: None, ..an });
+    }
+    res.add("model_reads_checked", an.reads_checked);
+    let mut full = spec.clone();
+    full.schedule = ex.choices.clone();
+    let mut nontrivial = false;
+    for o in &an.obs {
+        let k = match o.class {
+            Class::MustTrue => "obs_must_true",
+            Class::MustFalse => "obs_must_false",
+            Class::Free => "obs_unconstrained",
+        };
+        res.count(k);
+        if o.class != Class::Free {
+            nontrivial = true;
+        }
+        if o.probe {
+            res.count("obs_final_probes");
+        } else {
+            res.count("obs_scripted_is_dirty");
+        }
+        res.count(if o.result { "is_dirty_true" } else { "is_dirty_false" });
+    }
+    res.add("release_refused_while_other_holds", an.nonowner_release_err);
+    if an.double_holders {
+        res.count("runs_with_two_holders");
+    }
+    for ev in &ex.rec.events {
+        match ev {
+            Ev::Call { op, probe: false, .. } => res.count(&format!("op_{}", op.name())),
+            Ev::Kill { .. } => res.count("kills"),
+            Ev::Ret { op: Op::Lock, res: r, .. } => res.count(if r == "ok" { "lock_ok" } else { "lock_refused" }),
+            _ => {}
+        }
+    }
+    res.max("max_steps_in_run", ex.choices.len() as u64);
+    if nontrivial {
+        res.note_nontrivial(hash64(serde_json::to_string(&full).unwrap().as_bytes()));
+    }
+    if let Some((sig, desc)) = &an.violation {
+        res.count("runs_with_lost_or_stale_flag");
+        res.violation(sig.clone(), format!("{} schedule {:?}: {desc}", spec_label(spec), ex.choices), json!({"spec": full, "trace": trace_text(&ex.rec)}));
+    }
+    Judged::Done(ex, an)
+}
+
+fn trace_text(rec: &RunRecord) -> Vec<String> {
+    rec.events
+        .iter()
+        .enumerate()
+        .map(|(t, e)| match e {
+            Ev::SetupFile { content } => format!("{t}: setup file = {content:?}"),
+            Ev::Call { a, op, probe } => format!("{t}: actor{a}(pid {}) CALL {}{}", rec.pids[*a], op.name(), if *probe { " [final probe]" } else { "" }),
+            Ev::Exec { a, point, detail } => format!("{t}: actor{a} passes {point}{}", if detail.is_empty() && !point.ends_with(".read") { String::new() } else { format!(" [{detail:?}]") }),
+            Ev::Ret { a, op, res, .. } => format!("{t}: actor{a} RETURN {} = {res}", op.name()),
+            Ev::Kill { a } => format!("{t}: actor{a}(pid {}) SIGKILLed and reaped", rec.pids[*a]),
+        })
+        .collect()
+}
+
+// ------------------------------------------------------------------------------------------
+// Work plan: DFS units (pairs, triples, concurrent crashes), crash-point units, samples
+
+#[derive(Clone, Debug)]
+struct DfsConfig {
+    /// evidence key, e.g. "pair[nofile:lock|is_dirty]"
+    key: String,
+    spec: RunSpec,
+    /// actors (and the kill pseudo-actor) that can appear in a schedule prefix
+    movers: Vec<usize>,
+}
+
+fn single_op_spec(setup: Setup, ops: &[Op], bystander: bool, kill: Option<usize>) -> RunSpec {
+    let mut scripts: Vec<Vec<Op>> = ops.iter().map(|o| vec![*o]).collect();
+    if bystander {
+        scripts.push(vec![]);
+    }
+    RunSpec { setup, scripts, kill, all_points: vec![], schedule: vec![] }
+}
+
+fn ops_label(ops: &[Op]) -> String {
+    ops.iter().map(|o| o.name()).collect::<Vec<_>>().join("|")
+}
+
+/// All DFS configurations of a tier, most relevant first.
+fn dfs_configs(tier: Tier) -> Vec<DfsConfig> {
+    let mut out: Vec<DfsConfig> = vec![];
+    let push_pair = |out: &mut Vec<DfsConfig>, setup: Setup, a: Op, b: Op, bystander: bool| {
+        let sname = if bystander { "owned_by_idle_third".to_string() } else { setup.name() };
+        let key = format!("pair[{sname}:{}]", ops_label(&[a, b]));
+        if out.iter().any(|c| c.key == key) {
+            return;
+        }
+        out.push(DfsConfig { key, spec: single_op_spec(setup, &[a, b], bystander, None), movers: vec![0, 1] });
+    };
+    use Op::*;
+    // 1. the pairs around lock() and release() that matter most (quick and thorough)
+    for (setup, a, b) in [
+        (Setup::NoFile, Lock, Cleanup),
+        (Setup::NoFile, Lock, New),
+        (Setup::NoFile, Lock, IsDirty),
+        (Setup::NoFile, Lock, Lock),
+        (Setup::NoFile, Lock, Release),
+        (Setup::OwnedBy(0), Release, IsDirty),
+        (Setup::OwnedBy(0), Release, Lock),
+        (Setup::OwnedBy(0), Lock, IsDirty),
+        (Setup::OwnedBy(0), Lock, Cleanup),
+        (Setup::OwnedBy(0), IsDirty, Release),
+        (Setup::OwnedBy(0), New, Lock),
+        (Setup::DeadPid, Lock, IsDirty),
+        (Setup::DeadPid, Lock, Cleanup),
+        (Setup::DeadPid, Lock, Lock),
+        (Setup::Empty, Lock, IsDirty),
+        (Setup::Empty, Lock, Cleanup),
+        (Setup::Garbage, Lock, New),
+    ] {
+        push_pair(&mut out, setup, a, b, false);
+    }
+    // a live third process owns the flag and stays idle: nobody may make it invisible
+    for (a, b) in [(IsDirty, Cleanup), (IsDirty, Release), (IsDirty, Lock), (Release, New), (Lock, Cleanup)] {
+        push_pair(&mut out, Setup::OwnedBy(2), a, b, true);
+    }
+    if tier == Tier::Thorough {
+        // 2. every pair on every set-up (unordered pairs where the set-up is symmetric)
+        for setup in [Setup::NoFile, Setup::DeadPid, Setup::Empty, Setup::Garbage] {
+            for (i, a) in Op::ALL.iter().enumerate() {
+                for b in &Op::ALL[i..] {
+                    push_pair(&mut out, setup, *a, *b, false);
+                }
+            }
+        }
+        for a in Op::ALL {
+            for b in Op::ALL {
+                push_pair(&mut out, Setup::OwnedBy(0), a, b, false);
+            }
+        }
+        for (i, a) in Op::ALL.iter().enumerate() {
+            for b in &Op::ALL[i..] {
+                push_pair(&mut out, Setup::OwnedBy(2), *a, *b, true);
+            }
+        }
+        // 3. crash of the owner as a schedulable event, concurrent with an observer
+        for (setup, a, b) in [
+            (Setup::NoFile, Lock, IsDirty),
+            (Setup::OwnedBy(0), Release, IsDirty),
+            (Setup::OwnedBy(0), IsDirty, IsDirty),
+            (Setup::OwnedBy(0), Cleanup, Lock),
+            (Setup::DeadPid, Lock, IsDirty),
+            (Setup::NoFile, Lock, Cleanup),
+        ] {
+            out.push(DfsConfig {
+                key: format!("crashpair[{}:{}:kill0]", setup.name(), ops_label(&[a, b])),
+                spec: single_op_spec(setup, &[a, b], false, Some(0)),
+                movers: vec![0, 1, 2],
+            });
+        }
+        // 4. triples
+        for (setup, ops) in [
+            (Setup::NoFile, [Lock, New, IsDirty]),
+            (Setup::NoFile, [Lock, Cleanup, IsDirty]),
+            (Setup::DeadPid, [Lock, Cleanup, IsDirty]),
+            (Setup::OwnedBy(0), [Release, Lock, IsDirty]),
+            (Setup::Empty, [Lock, New, IsDirty]),
+        ] {
+            out.push(DfsConfig { key: format!("triple[{}:{}]", setup.name(), ops_label(&ops)), spec: single_op_spec(setup, &ops, false, None), movers: vec![0, 1, 2] });
+        }
+    } else {
+        out.push(DfsConfig {
+            key: format!("crashpair[nofile:{}:kill0]", ops_label(&[Lock, IsDirty])),
+            spec: single_op_spec(Setup::NoFile, &[Lock, IsDirty], false, Some(0)),
+            movers: vec![0, 1, 2],
+        });
+        out.push(DfsConfig {
+            key: format!("triple[nofile:{}]", ops_label(&[Lock, New, IsDirty])),
+            spec: single_op_spec(Setup::NoFile, &[Lock, New, IsDirty], false, None),
+            movers: vec![0, 1, 2],
+        });
+    }
+    out
+}
+
+#[derive(Clone, Debug)]
+struct DfsUnit {
+    cfg: usize,
+    prefix: Vec<usize>,
+}
+
+const PREFIX_LEN: usize = 2;
+
+fn dfs_units(cfgs: &[DfsConfig], tier: Tier) -> Vec<DfsUnit> {
+    let mut units = vec![];
+    for (ci, c) in cfgs.iter().enumerate() {
+        // the quick tier does not have the time for a whole triple: it takes a fixed slice of it
+        let depth = if c.movers.len() == 3 { 3 } else { PREFIX_LEN };
+        let mut prefixes: Vec<Vec<usize>> = vec![vec![]];
+        for _ in 0..depth {
+            prefixes = prefixes.into_iter().flat_map(|p| c.movers.iter().map(move |m| { let mut q = p.clone(); q.push(*m); q })).collect();
+        }
+        for p in prefixes {
+            units.push(DfsUnit { cfg: ci, prefix: p });
+        }
+        let _ = tier;
+    }
+    units
+}
+
+fn units_per_config(c: &DfsConfig) -> u64 {
+    let depth = if c.movers.len() == 3 { 3 } else { PREFIX_LEN };
+    (c.movers.len() as u64).pow(depth as u32)
+}
+
+/// Enumerate every schedule that extends `unit.prefix`. Returns true if the enumeration completed.
+fn run_dfs_unit(co: &mut Coordinator, cfg: &DfsConfig, unit: &DfsUnit, deadline: &dyn Fn() -> bool, res: &mut ShardResult) -> bool {
+    let fixed = unit.prefix.len();
+    let mut sched = unit.prefix.clone();
+    let mut first = true;
+    loop {
+        if !deadline() {
+            return false;
+        }
+        let mut spec = cfg.spec.clone();
+        spec.schedule = sched.clone();
+        match run_and_judge(co, &spec, Policy::Lowest, "enumerated", res) {
+            Judged::Infeasible => {
+                if first {
+                    // nothing extends this prefix: the unit is (vacuously) complete
+                    return true;
+                }
+                res.inconclusive(format!("{}: schedule {:?} not reproducible (set of enabled actors changed between runs)", cfg.key, sched));
+                return false;
+            }
+            Judged::Inconclusive => return false,
+            Judged::Done(ex, _) => {
+                first = false;
+                res.count(&format!("{}.interleavings", cfg.key));
+                if ex.choices.len() < fixed {
+                    // the whole run is shorter than the prefix: it belongs to the unit whose
+                    // prefix is its padding with the lowest mover
+                    return true;
+                }
+                let mut next = None;
+                for i in (fixed..ex.choices.len()).rev() {
+                    if let Some(&alt) = ex.enabled[i].iter().find(|&&e| e > ex.choices[i]) {
+                        let mut s = ex.choices[..i].to_vec();
+                        s.push(alt);
+                        next = Some(s);
+                        break;
+                    }
+                }
+                match next {
+                    Some(s) => sched = s,
+                    None => return true,
+                }
+            }
+        }
+    }
+}
+
+#[derive(Clone, Debug)]
+struct CrashConfig {
+    key: String,
+    spec: RunSpec,
+}
+
+fn crash_configs(tier: Tier) -> Vec<CrashConfig> {
+    use Op::*;
+    let mut out = vec![];
+    let survivors: Vec<(&str, Vec<Vec<Op>>)> = vec![
+        ("check,check", vec![vec![IsDirty, IsDirty]]),
+        ("cleanup,check", vec![vec![Cleanup, IsDirty]]),
+        ("lock;check", vec![vec![Lock], vec![IsDirty]]),
+        ("release,check", vec![vec![Release, IsDirty]]),
+    ];
+    let victims: Vec<(Setup, Op)> = vec![
+        (Setup::NoFile, Lock),
+        (Setup::OwnedBy(0), Release),
+        (Setup::OwnedBy(0), Lock),
+        (Setup::DeadPid, Lock),
+        (Setup::Empty, Lock),
+        (Setup::Garbage, Lock),
+        (Setup::OwnedBy(1), Lock),
+        (Setup::NoFile, Release),
+        (Setup::DeadPid, Release),
+        (Setup::OwnedBy(1), Release),
+    ];
+    for (vi, (setup, vop)) in victims.iter().enumerate() {
+        for (si, (sname, sscripts)) in survivors.iter().enumerate() {
+            if tier == Tier::Quick && !(vi < 3 || (vi < 7 && si == 0)) {
+                continue;
+            }
+            let mut scripts = vec![vec![*vop]];
+            scripts.extend(sscripts.iter().cloned());
+            out.push(CrashConfig {
+                key: format!("crash[{}:{}@every-point;survivors:{sname}]", setup.name(), vop.name()),
+                spec: RunSpec { setup: *setup, scripts, kill: Some(0), all_points: vec![0], schedule: vec![] },
+            });
+        }
+    }
+    out
+}
+
+/// Kill the victim (actor 0) after k of its hook points, k = 0, 1, ... until the operation is over.
+fn run_crash_config(co: &mut Coordinator, cfg: &CrashConfig, deadline: &dyn Fn() -> bool, res: &mut ShardResult) -> bool {
+    let k_id = cfg.spec.scripts.len();
+    for k in 0..64usize {
+        if !deadline() {
+            return false;
+        }
+        let mut spec = cfg.spec.clone();
+        spec.schedule = vec![0; k];
+        spec.schedule.push(k_id);
+        match run_and_judge(co, &spec, Policy::Lowest, "crash_point", res) {
+            // the victim's operation has fewer than k points
+            Judged::Infeasible => {
+                // one more: crash after the operation returned
+                return true;
+            }
+            Judged::Inconclusive => return false,
+            Judged::Done(ex, _) => {
+                res.count("crash_points_enumerated");
+                res.count(&format!("{}.points", cfg.key));
+                // which point was the victim at?
+                let at = ex.rec.events.iter().rev().skip_while(|e| !matches!(e, Ev::Kill { .. })).find_map(|e| match e {
+                    Ev::Exec { a: 0, point, .. } => Some(point.clone()),
+                    _ => None,
+                });
+                res.count(&format!("killed_after_{}", at.unwrap_or_else(|| "nothing".into())));
+            }
+        }
+    }
+    true
+}
+
+fn random_spec(rng: &mut rand::rngs::StdRng, tier: Tier) -> RunSpec {
+    use Op::*;
+    let n = if rng.gen_bool(0.5) { 2 } else { 3 };
+    let weighted = [Lock, Lock, Lock, Release, Release, IsDirty, IsDirty, IsDirty, Cleanup, New];
+    let scripts: Vec<Vec<Op>> = (0..n)
+        .map(|_| {
+            let len = rng.gen_range(tier.pick(2, 3)..=4);
+            (0..len).map(|_| *choose(rng, &weighted)).collect()
+        })
+        .collect();
+    let setup = match rng.gen_range(0..8) {
+        0 | 1 => Setup::NoFile,
+        2 | 3 => Setup::OwnedBy(rng.gen_range(0..n)),
+        4 | 5 => Setup::DeadPid,
+        6 => Setup::Empty,
+        _ => Setup::Garbage,
+    };
+    let kill = if rng.gen_bool(0.35) { Some(rng.gen_range(0..n)) } else { None };
+    RunSpec { setup, scripts, kill, all_points: vec![], schedule: vec![] }
+}
+
+// ------------------------------------------------------------------------------------------
+// Shard driver
+
+fn shard(ctx: &ShardCtx) -> ShardResult {
+    let mut res = ShardResult::default();
+    let home = ctx.work().join("home");
+    // crash points: liveness is what is being tested -> the system's ps
+    let mut co = match Coordinator::new(home.clone(), true) {
+        Ok(c) => c,
+        Err(e) => {
+            res.harness_fault = Some(format!("cannot start the process stepper: {e}"));
+            return res;
+        }
+    };
+    res.count(match co.variant {
+        LockVariant::CreateThenWrite => "shards_lock_variant_create_then_write",
+        LockVariant::TempThenRename => "shards_lock_variant_temp_then_rename",
+    });
+    let frac = |f: f64| {
+        let start = ctx.start;
+        let lim = ctx.budget.mul_f64(f);
+        move || start.elapsed() < lim
+    };
+    // phase 1: crash points (cheap, sequential)
+    let ccfgs = crash_configs(ctx.tier);
+    let crash_deadline = frac(0.30);
+    for (i, c) in ccfgs.iter().enumerate() {
+        if i as u64 % ctx.nshards != ctx.shard {
+            continue;
+        }
+        journal_current(ctx, &c.key);
+        if run_crash_config(&mut co, c, &crash_deadline, &mut res) {
+            res.count("crash_configs_completed");
+        } else {
+            res.count("crash_configs_incomplete");
+        }
+    }
+    eprintln!("shard {}: crash phase done at {:.1}s, {} runs", ctx.shard, ctx.start.elapsed().as_secs_f64(), res.evaluations);
+    drop(co);
+    let mut co = match Coordinator::new(home, false) {
+        Ok(c) => c,
+        Err(e) => {
+            res.harness_fault = Some(format!("cannot start the process stepper: {e}"));
+            return res;
+        }
+    };
+    res.count("shards_ps_standin_agrees_with_system_ps");
+    // phase 2: exhaustive interleavings, split into units by schedule prefix
+    let cfgs = dfs_configs(ctx.tier);
+    let units = dfs_units(&cfgs, ctx.tier);
+    let dfs_deadline = frac(0.85);
+    for (j, u) in units.iter().enumerate() {
+        if j as u64 % ctx.nshards != ctx.shard {
+            continue;
+        }
+        let c = &cfgs[u.cfg];
+        journal_current(ctx, &format!("{} prefix {:?}", c.key, u.prefix));
+        if run_dfs_unit(&mut co, c, u, &dfs_deadline, &mut res) {
+            res.count("dfs_units_completed");
+            res.count(&format!("{}.units_done", c.key));
+        } else {
+            res.count("dfs_units_incomplete");
+        }
+    }
+    eprintln!("shard {}: dfs phase done at {:.1}s, {} runs", ctx.shard, ctx.start.elapsed().as_secs_f64(), res.evaluations);
+    if ctx.shard == 0 {
+        drop(co);
+        strace_crosscheck(ctx, &mut res);
+        co = match Coordinator::new(ctx.work().join("home"), false) {
+            Ok(c) => c,
+            Err(e) => {
+                res.harness_fault = Some(format!("cannot restart the process stepper: {e}"));
+                return res;
+            }
+        };
+    }
+    // phase 3: sampled longer scripts until the budget is used (at least a few)
+    let mut i = 0u64;
+    let min_samples = 2;
+    while ctx.time_left() || i < min_samples {
+        let mut rng = ctx.rng(i);
+        let spec = random_spec(&mut rng, ctx.tier);
+        journal_current(ctx, &format!("sample {i} {}", spec_label(&spec)));
+        if let Judged::Done(ex, an) = run_and_judge(&mut co, &spec, Policy::Random(&mut rng), "sampled", &mut res) {
+            res.count("sampled_runs");
+            if i < 2 && ctx.shard == 0 {
+                let mut full = spec.clone();
+                full.schedule = ex.choices.clone();
+                res.sample(json!({"spec": full, "trace": trace_text(&ex.rec), "observations": an.obs.iter().map(|o| format!("actor{} is_dirty@{}..{} = {} [{:?}]", o.actor, o.call, o.ret, o.result, o.class)).collect::<Vec<_>>()}));
+            }
+        }
+        i += 1;
+        if i > 5_000_000 {
+            break;
+        }
+    }
+    eprintln!("shard {}: sampling done at {:.1}s, {} runs, {} samples", ctx.shard, ctx.start.elapsed().as_secs_f64(), res.evaluations, i);
+    res
+}
+
+fn extra(res: &ShardResult) -> Value {
+    // reassemble the per-configuration table from the counters
+    let mut table: BTreeMap<String, serde_json::Map<String, Value>> = BTreeMap::new();
+    let mut expected: BTreeMap<String, u64> = BTreeMap::new();
+    for tier in [Tier::Quick, Tier::Thorough] {
+        for c in dfs_configs(tier) {
+            expected.insert(c.key.clone(), units_per_config(&c));
+        }
+    }
+    for (k, v) in &res.counters {
+        for suffix in [".interleavings", ".units_done", ".points"] {
+            if let Some(key) = k.strip_suffix(suffix) {
+                table.entry(key.to_string()).or_default().insert(suffix[1..].to_string(), json!(v));
+            }
+        }
+    }
+    let mut pairs_exhaustive = 0;
+    let mut rows = vec![];
+    for (key, mut m) in table {
+        if key.starts_with("crash[") {
+            m.insert("config".into(), json!(key));
+            rows.push(Value::Object(m));
+            continue;
+        }
+        let done = m.get("units_done").and_then(|v| v.as_u64()).unwrap_or(0);
+        let total = expected.get(&key).copied().unwrap_or(u64::MAX);
+        let ex = done == total;
+        if ex {
+            pairs_exhaustive += 1;
+        }
+        m.insert("units_total".into(), json!(total));
+        m.insert("exhaustive".into(), json!(ex));
+        m.insert("config".into(), json!(key));
+        rows.push(Value::Object(m));
+    }
+    json!({
+        "configurations": rows,
+        "configurations_exhaustive": pairs_exhaustive,
+        "is_dirty_observations": {
+            "must_true": res.counters.get("obs_must_true").copied().unwrap_or(0),
+            "must_false": res.counters.get("obs_must_false").copied().unwrap_or(0),
+            "unconstrained": res.counters.get("obs_unconstrained").copied().unwrap_or(0),
+        },
+        "crash_points_enumerated": res.counters.get("crash_points_enumerated").copied().unwrap_or(0),
+    })
+}
+
+fn replay(case: &Value) -> ShardResult {
+    let mut res = ShardResult::default();
+    let spec: RunSpec = match serde_json::from_value(case["spec"].clone()) {
+        Ok(s) => s,
+        Err(e) => {
+            res.harness_fault = Some(format!("bad replay case: {e}"));
+            return res;
+        }
+    };
+    let home = work_dir("C25").join("replay").join("home");
+    let mut co = match Coordinator::new(home, true) {
+        Ok(c) => c,
+        Err(e) => {
+            res.harness_fault = Some(format!("cannot start the process stepper: {e}"));
+            return res;
+        }
+    };
+    match run_and_judge(&mut co, &spec, Policy::Lowest, "replayed", &mut res) {
+        Judged::Done(ex, _) => {
+            for l in trace_text(&ex.rec) {
+                eprintln!("  {l}");
+            }
+        }
+        Judged::Infeasible => res.harness_fault = Some("recorded schedule is not feasible any more".into()),
+        Judged::Inconclusive => res.harness_fault = Some(format!("replay inconclusive: {:?}", res.inconclusive_notes)),
+    }
+    res
+}
+
+// ------------------------------------------------------------------------------------------
+// Cross-check with strace: between two consecutive hook points an actor issues exactly the
+// file-system calls on the flag file that the stepper (and the model) attribute to that point.
+
+fn strace_expected(point: &str, variant: LockVariant) -> &'static [&'static str] {
+    match (point, variant) {
+        ("pid.before_open", _) => &["open_r"],
+        ("cleanup.before_open", _) => &["open_r"],
+        ("pid.dead_before_remove", _) | ("release.before_remove", _) | ("cleanup.dead_before_remove", _) | ("cleanup.unparsable_before_remove", _) => &["unlink"],
+        ("cleanup.begin", _) => &["open_dir"],
+        ("lock.before_create", LockVariant::CreateThenWrite) => &["open_w"],
+        ("lock.before_create", LockVariant::TempThenRename) => &["open_w_tmp"],
+        ("lock.created", _) => &["write_pid"],
+        ("lock.written", LockVariant::TempThenRename) => &["rename"],
+        _ => &[],
+    }
+}
+
+fn strace_crosscheck(ctx: &ShardCtx, res: &mut ShardResult) {
+    let base = ctx.work().join("strace");
+    clean_dir(&base);
+    let home = base.join("home");
+    let run = || -> Result<(u64, Vec<String>), String> {
+        let mut co = Coordinator::new(home.clone(), false)?;
+        co.kill_all();
+        let logs = [base.join("actor0.strace"), base.join("actor1.strace")];
+        for l in &logs {
+            co.pool.push(Some(ActorProc::spawn_traced(&co.home, co.ps_dir.as_deref(), Some(l))?));
+        }
+        let pids: Vec<u32> = (0..2).map(|i| co.actor(i).pid).collect();
+        let mut ev = vec![];
+        // a tour through every hook point
+        co.reset_fs();
+        co.run_auto(0, Op::Lock, false, &mut ev)?;
+        co.run_auto(1, Op::IsDirty, false, &mut ev)?;
+        co.run_auto(1, Op::Lock, false, &mut ev)?;
+        co.run_auto(1, Op::Release, false, &mut ev)?;
+        co.run_auto(0, Op::Lock, false, &mut ev)?;
+        co.run_auto(0, Op::Release, false, &mut ev)?;
+        let d = fresh_dead_pid()?;
+        std::fs::write(&co.lock_path, d.to_string()).map_err(|e| e.to_string())?;
+        co.run_auto(1, Op::Cleanup, false, &mut ev)?;
+        std::fs::write(&co.lock_path, d.to_string()).map_err(|e| e.to_string())?;
+        co.run_auto(1, Op::Release, false, &mut ev)?;
+        std::fs::write(&co.lock_path, "").map_err(|e| e.to_string())?;
+        co.run_auto(0, Op::New, false, &mut ev)?;
+        std::fs::write(&co.lock_path, "not-a-pid").map_err(|e| e.to_string())?;
+        co.run_auto(1, Op::IsDirty, false, &mut ev)?;
+        co.run_auto(1, Op::Lock, false, &mut ev)?;
+        for i in 0..2 {
+            let _ = co.actor(i).send("exit");
+        }
+        for a in co.pool.drain(..).flatten() {
+            let mut a = a;
+            let _ = a.child.wait();
+        }
+        let lock = co.lock_path.to_string_lossy().into_owned();
+        let dir = co.lock_dir.to_string_lossy().into_owned();
+        let mut checked = 0u64;
+        let mut bad = vec![];
+        for (i, l) in logs.iter().enumerate() {
+            let text = std::fs::read_to_string(l).map_err(|e| format!("strace log: {e}"))?;
+            let me = format!("{} ", pids[i]);
+            let mut cur: Option<(String, Vec<&'static str>)> = None;
+            let close = |cur: &mut Option<(String, Vec<&'static str>)>, checked: &mut u64, bad: &mut Vec<String>| {
+                if let Some((p, seen)) = cur.take() {
+                    let exp = strace_expected(&p, co.variant);
+                    if seen.as_slice() == exp {
+                        *checked += 1;
+                    } else {
+                        bad.push(format!("actor{i} after {p}: strace saw {seen:?}, expected {exp:?}"));
+                    }
+                }
+            };
+            for line in text.lines() {
+                let Some(rest) = line.strip_prefix(&me) else { continue };
+                let rest = rest.trim_start();
+                if rest.starts_with("write(1, \"POINT ") {
+                    close(&mut cur, &mut checked, &mut bad);
+                    let name = rest["write(1, \"POINT ".len()..].split(' ').next().unwrap_or("").to_string();
+                    cur = Some((name, vec![]));
+                    continue;
+                }
+                if rest.starts_with("write(1, \"DONE ") {
+                    close(&mut cur, &mut checked, &mut bad);
+                    continue;
+                }
+                let Some((_, seen)) = cur.as_mut() else { continue };
+                let quoted_lock = format!("\"{lock}\"");
+                let quoted_dir = format!("\"{dir}\"");
+                if rest.starts_with("openat(") || rest.starts_with("open(") {
+                    if rest.contains(&quoted_lock) {
+                        seen.push(if rest.contains("O_CREAT") { "open_w" } else { "open_r" });
+                    } else if rest.contains(&format!("\"{lock}.tmp")) {
+                        seen.push("open_w_tmp");
+                    } else if rest.contains(&quoted_dir) && rest.contains("O_DIRECTORY") {
+                        seen.push("open_dir");
+                    }
+                } else if rest.starts_with("unlink") {
+                    if rest.contains(&quoted_lock) {
+                        seen.push("unlink");
+                    }
+                } else if rest.starts_with("rename") {
+                    if rest.contains(&quoted_lock) {
+                        seen.push("rename");
+                    }
+                } else if rest.starts_with("write(") && !rest.starts_with("write(1,") && !rest.starts_with("write(2,") {
+                    if rest.contains(&format!("\"{}\"", pids[i])) {
+                        seen.push("write_pid");
+                    }
+                }
+            }
+            close(&mut cur, &mut checked, &mut bad);
+        }
+        Ok((checked, bad))
+    };
+    match run() {
+        Ok((checked, bad)) => {
+            res.add("strace_segments_consistent_with_hooks", checked);
+            for b in bad.iter().take(5) {
+                res.inconclusive(format!("strace cross-check: {b}"));
+            }
+            res.add("strace_segments_inconsistent", bad.len() as u64);
+        }
+        Err(e) => {
+            eprintln!("strace cross-check skipped: {e}");
+            res.count("strace_crosscheck_unavailable");
+        }
+    }
+}
